@@ -174,9 +174,11 @@ WalkTracks(views, fmt, i, lev) ==
 
 ---------------------------------------------------------------------------
 (* parseSMF at offset off (0 for SMF, 20 for RMI, 0 for the converters' output) *)
+MaxTracksWalked == 48         \* files with more track chunks than this are not decided by the model
 RECURSIVE Chunks(_, _, _, _)
 Chunks(I, p, k, acc) ==
   IF k = 0 THEN [k |-> "ok", t |-> acc, o |-> Acc]
+  ELSE IF Len(acc) >= MaxTracksWalked THEN [k |-> "out", t |-> <<>>, o |-> Unk]
   ELSE IF N(I) - p < 8 \/ ~Match(I, p, MTrk) THEN [k |-> "out", t |-> <<>>, o |-> Rej]
   ELSE LET hi == BE16(I, p + 4)
            lo == BE16(I, p + 6)
